@@ -12,6 +12,7 @@ LEVEL_TEXT = ("Round-trip monitoring of dump/load, dump->JSON text->load, pickle
               "kind of arg value: the result must be equal (library == and independent canonical form), generate the same "
               "SQL in the source dialect and rotating others, and carry the same public types, comments and meta; "
               "json.dumps of a dump must succeed.")
+LEVEL_TEXT += (' Harvested dialect-specific trees (raw and annotated) are included; the copy and the tree are also generated in place (copy=False) and compared.')
 LEVEL_NOTE = "compares public observables only (.type, .comments, .meta, .sql()); trees come from the real parsers/optimizer"
 TECHNIQUE = "runtime monitoring: serialisation round-trip oracle over parser/optimizer-produced trees"
 RULE = ("core-grammar statements (with injected comments) x all dialects x {raw, annotate_types, qualify+annotate_types} x "
